@@ -271,8 +271,23 @@ def d12_probe():
     return None
 
 
+def _write_c20_blocks():
+    import os, sys, importlib
+    d = os.path.join(C.WORK, 'models')
+    os.makedirs(d, exist_ok=True)
+    with open(os.path.join(d, 'verif_c20_blocks.py'), 'w') as f:
+        f.write('from sequence_jacobian import simple\nCOUNT = [0]\n\ndef _tick(v):\n    COUNT[0] += 1\n    return v\n\n'
+                '@simple\ndef c20_eq1(x, y, a):\n    r1 = x + 0.5 * y - 2 * a\n    return r1\n\n'
+                '@simple\ndef c20_eq2(x, y):\n    r2 = (x - y).apply(_tick) + 0.25\n    return r2\n')
+    if d not in sys.path:
+        sys.path.insert(0, d)
+    importlib.invalidate_caches()
+    sys.modules.pop('verif_c20_blocks', None)
+
+
 def check_specs():
     solvers, sst = mods()
+    _write_c20_blocks()
     bad = []
     iv, mb = sst.extract_multivariate_initial_values_and_bounds({'a': 1.0, 'b': (0.0, 0.5, 2.0)})
     if list(iv) != [1.0, 0.5] or mb != {'b': (0.0, 2.0)}:
@@ -302,6 +317,43 @@ def check_specs():
         bad.append('unknown constrained method accepted')
     except ValueError:
         pass
+    # no solver named: the default is chosen only for usable specifications; everything else is refused BEFORE the model is evaluated
+    for spec, ok in (({'a': (0.0, 1.0)}, 'brentq'), ({'a': 1.0, 'b': 2}, 'broyden_custom'), ({'a': 1.0}, None), ({'a': (2.0, 1.0)}, None), ({}, None),
+                     ({'a': 1.0, 'b': (0.0, 1.0)}, None), ({'a': (0.0, 1.0), 'b': (0.0, 2.0)}, None), ({'a': (0.0, 0.5, 1.0), 'b': (0.0, 0.5, 1.0)}, None),
+                     ({'a': None, 'b': 1.0}, None), ({'a': 'x', 'b': 1.0}, None), ({'a': 1.0, 'b': 2.0, 'c': (0.0, 1.0)}, None)):
+        try:
+            r = sst.provide_solver_default(spec)
+            if r != ok:
+                bad.append(f'provide_solver_default accepted the unusable specification {spec} (chose {r})' if ok is None else f'provide_solver_default chose {r} for {spec}')
+        except ValueError:
+            if ok is not None:
+                bad.append(f'provide_solver_default refused the usable specification {spec}')
+        except Exception as ex:
+            bad.append(f'provide_solver_default raised {type(ex).__name__} instead of ValueError for {spec}')
+    try:        # through the public entry point, with an evaluation counter
+        from sequence_jacobian import simple, combine
+        import verif_c20_blocks as vb
+    except Exception:
+        vb = None
+    if vb is not None:
+        model = combine([vb.c20_eq1, vb.c20_eq2], name='c20')
+        for spec in ({'x': 1.0, 'y': (0.0, 3.0)}, {'x': (0.0, 3.0), 'y': (0.0, 3.0)}, {'x': (0.0, 1.0, 3.0), 'y': (0.0, 1.0, 3.0)}):
+            vb.COUNT[0] = 0
+            try:
+                model.solve_steady_state({'a': 1.0}, spec, ['r1', 'r2'])
+                bad.append(f'solve_steady_state without a solver accepted the unusable unknowns {spec} ({vb.COUNT[0]} model evaluations)')
+            except ValueError:
+                if vb.COUNT[0]:
+                    bad.append(f'solve_steady_state evaluated the model {vb.COUNT[0]} times before refusing the unusable unknowns {spec}')
+            except Exception as ex:
+                bad.append(f'solve_steady_state raised {type(ex).__name__} instead of ValueError for the unusable unknowns {spec}')
+        vb.COUNT[0] = 0
+        try:
+            r = model.solve_steady_state({'a': 1.0}, {'x': 1.0, 'y': 1.0}, ['r1', 'r2'])
+            if abs(r['r1']) > 1e-7 or abs(r['r2']) > 1e-7:
+                bad.append('solve_steady_state with the default solver returned without hitting the targets')
+        except Exception as ex:
+            bad.append(f'solve_steady_state with usable scalar unknowns and no solver raised {type(ex).__name__}: {ex}')
     return [dict(what=b, input=dict(kind='specs'), signature=dict(op='specs', what=b[:40])) for b in bad]
 
 
